@@ -295,8 +295,11 @@ func (p *Policy) sanitize(r io.Reader, w io.Writer) error {
 
 			if len(token.Attr) == 0 {
 				if !p.allowNoAttrs(token.Data) {
-					skipClosingTag = true
-					closingTagToSkipStack = append(closingTagToSkipStack, token.Data)
+					// void elements have no closing tag to skip
+					if !isVoidElement(token.Data) {
+						skipClosingTag = true
+						closingTagToSkipStack = append(closingTagToSkipStack, token.Data)
+					}
 					if p.addSpaces {
 						if _, err := buff.WriteString(" "); err != nil {
 							return err
@@ -997,6 +1000,18 @@ func linkable(elementName string) bool {
 		return true
 	case "audio", "embed", "iframe", "img", "input", "script", "track", "video":
 		// elements that allow .src
+		return true
+	default:
+		return false
+	}
+}
+
+// isVoidElement returns true for the HTML void elements, which never have a
+// closing tag
+func isVoidElement(elementName string) bool {
+	switch elementName {
+	case "area", "base", "br", "col", "embed", "hr", "img", "input", "link",
+		"meta", "source", "track", "wbr":
 		return true
 	default:
 		return false
